@@ -59,12 +59,18 @@ def process_signature(app, what, name, obj, options,
             # descriptors implemented in C insist on an instance of parent
             pass
     try:
-        sig = specifiers.signature(obj).evaluated()
+        obj_sig = specifiers.signature(obj)
     except (TypeError, ValueError, AttributeError):
         # inspect.signature raises ValueError if obj is callable but it can't
         # determine a signature, eg. built-in objects
         # AttributeError: a forwards_to_method/forwards_to_super declaration
         # looked up its target on the placeholder instance used above
+        return sig, return_annotation
+    try:
+        sig = obj_sig.evaluated()
+    except Exception:
+        # annotations postponed per PEP 563 are arbitrary code which may not
+        # be evaluable here, eg. names only imported under TYPE_CHECKING
         return sig, return_annotation
     ret_annot = sig.return_annotation
     if ret_annot != sig.empty:
